@@ -30,8 +30,7 @@ def gcdPrim (a b : Nat) : Except PanicKind Nat :=
   if a = 0 ∨ b = 0 then
     if a = 0 ∧ b = 0 then .error .gcdZeroZero else .ok (a ||| b)
   else
-    -- `(a | b).trailing_zeros()` = the smaller of the two trailing-zero counts
-    let shift := min (trailingZeros a) (trailingZeros b)
+    let shift := trailingZeros (a ||| b)
     let a := a / 2 ^ trailingZeros a
     let b := b / 2 ^ trailingZeros b
     if bitLen b > bitLen a + 3 then
@@ -61,8 +60,7 @@ def xgcdPrim (a b : Nat) : Except PanicKind (Nat × Int × Int) :=
   else if a = 0 then .ok (b, 0, 1)
   else if b = 0 then .ok (a, 1, 0)
   else
-    -- `(a | b).trailing_zeros()` = the smaller of the two trailing-zero counts
-    let shift := min (trailingZeros a) (trailingZeros b)
+    let shift := trailingZeros (a ||| b)
     let a := a / 2 ^ shift
     let b := b / 2 ^ shift
     if a ≥ b then
@@ -101,7 +99,7 @@ def xgcdPrimWide (H : Nat) (a b : Nat) : Except PanicKind (Nat × Int × Int) :=
   else if a = 0 then .ok (b, 0, 1)
   else if b = 0 then .ok (a, 1, 0)
   else
-    let shift := min (trailingZeros a) (trailingZeros b)
+    let shift := trailingZeros (a ||| b)
     let a := a / 2 ^ shift
     let b := b / 2 ^ shift
     if a ≥ b then
